@@ -10,7 +10,8 @@ SUCCESS_INPUTS = ('version_reply', 'reply_ipv4', 'reply_ipv6', 'reply_domain_nam
 
 
 def machine(run):
-    return run.idx.cls('_SocksMachine', MOD)
+    # (plain private helper methods the parsers share are seen inlined: see inline_self_helpers)
+    return inline_self_helpers(run.idx, run.idx.cls('_SocksMachine', MOD))
 
 
 def table(run):
@@ -750,6 +751,29 @@ def r05_7(run):
                message='%s does not clear self._data after delivering it (bytes duplicated)' % name)
 
 
+def r05_9(run):
+    """a resolve request yields the address *as text*: in the parsers of the binary address forms (IPv4, IPv6) what is handed to
+    reply_domain_name is the buffer slice converted with inet_ntoa / inet_ntop (or an ipaddress object's text), never the packed bytes"""
+    k = 0
+    for pname, conv in (('_parse_ipv4_reply', ('inet_ntoa', 'inet_ntop')), ('_parse_ipv6_reply', ('inet_ntop',))):
+        u = MU(run, pname)
+        defs = local_defs(u)
+        for m, c in self_calls(u):
+            if m != 'reply_domain_name' or not c.args:
+                continue
+            k += 1
+            v = c01_resolve(defs, c.args[0])
+            txt = False
+            for x in ast.walk(v):
+                if isinstance(x, ast.Call) and (callee_attr(x) in conv or (callee_attr(x) in ('str', 'format') and 'ip_address' in src(x))):
+                    txt = True
+                if isinstance(x, ast.Attribute) and x.attr in ('compressed', 'exploded') and 'ip_address' in src(x):
+                    txt = True
+            run.ob('R05.9', u, c, 'the resolved address is handed on as text', txt, slot='resolve-answer-text:%s' % pname,
+                   message='%s answers a resolve request with %s (= %s): the packed address bytes, not the address the reply names' % (pname, src(c.args[0])[:30], src(v)[:40]))
+    run.floor('R05.9', 'resolve answers in the binary-address parsers', k, 2)
+
+
 RULES = [
     ('R05.1', 'automat transition-table obligations: who creates/delivers, relaying entered only with the application connection, remainder flushed on entering relaying, dead states silent, failures end in _disconnect', r05_1),
     ('R05.2', 'dominance: every buffer consumption behind a length test covering it; success inputs raised after consuming', r05_2),
@@ -757,6 +781,7 @@ RULES = [
     ('R05.4', 'SocksError table: distinct codes covering 1..8; unknown code preserved', r05_4),
     ('R05.5', 'sibling agreement: every address parser raises the input matching the request type (path enumeration over the CONNECT atom)', r05_5),
     ('R05.8', 'RFC 1928 reply layout per address parser (linear forms over the name length): need = N, address [A0:N-2], port [N-2:N], consume [N:], one success input per consumed reply; wrong version fails', r05_8),
+    ('R05.9', 'a resolve request answered with an IPv4/IPv6 reply yields the address text (inet_ntoa / inet_ntop of the slice), not packed bytes', r05_9),
     ('R05.6', '_when_done fired only by machine outputs with the right values; SingleObserver is a one-shot latch', r05_6),
     ('R05.7', 'I/O glue: transport handed to the application protocol, bytes fed/written unchanged, whole buffer delivered and cleared', r05_7),
 ]
@@ -764,6 +789,7 @@ RULES = [
 from ..selftest import M  # noqa: E402
 F = 'txtorcon/socks.py'
 MUTANTS = [
+    M('resolve-ipv6-raw-bytes', F, "                self.reply_domain_name(inet_ntop(AF_INET6, addr))", "                self.reply_domain_name(addr)", ['R05.9']),
     M('disconnect-raw-reason', F, "        self._machine.disconnected(SocksError(reason))", "        self._machine.disconnected(reason.value)", ['R05.7']),
     M('machine-output-queued', F, "            on_data=self._on_data,\n", "", ['R05.7']),
     M('ipv6-waits-one-more', F, "        if len(self._data) >= 22:", "        if len(self._data) > 22:", ['R05.8']),
@@ -800,6 +826,10 @@ MUTANTS = [
     M('relay-drops-first-byte', F, "            d = self._data\n            self._data = b''\n", "            d = self._data[1:]\n            self._data = b''\n", ['R05.7']),
 ]
 TWINS = [
+    M('shared-tail-helper', F, ["            self._data = self._data[10:]\n            if self._req_type == 'CONNECT':\n                self.reply_ipv4(addr, port)\n            else:\n                self.reply_domain_name(addr)\n",
+       "    def _parse_ipv4_reply(self):\n"],
+      ["            self._done_v4(addr, port)\n",
+       "    def _done_v4(self, a, p):\n        self._data = self._data[10:]\n        if self._req_type == 'CONNECT':\n            self.reply_ipv4(a, p)\n        else:\n            self.reply_domain_name(a)\n\n    def _parse_ipv4_reply(self):\n"]),
     M('reparse-len-gt-0', F, "                if self._data:\n                    self.got_data()\n            else:", "                if len(self._data) > 0:\n                    self.got_data()\n            else:"),
     M('reparse-unconditional', F, "                if self._data:\n                    self.got_data()\n            else:", "                self.got_data()\n            else:"),
     M('len-le-7', F, "        if len(self._data) < 8:\n            return\n        msg = self._data[:4]", "        if len(self._data) <= 7:\n            return\n        msg = self._data[:4]"),
